@@ -39,6 +39,8 @@ def plan(tier, seed):
     transports = ["sdo", "pdo", "sdo-disabled-tpdo", "pdo", "pdo-ticked"] if tier == "quick" else ["sdo", "pdo", "sdo-disabled-tpdo"] * 4 + ["pdo-ticked"] * 3
     shards += [{"kind": "transitions", "transport": t, "delays": [0, 1, 2, 3, 4, 6] if tier == "quick" else [0, 1, 2, 3, 4, 5, 6, 8, 12],
                 "extras": 3 if tier == "quick" else 12, "cs": seed * 10 + i} for i, t in enumerate(transports)]
+    shards += [{"kind": "histories", "transport": t, "count": 12 if tier == "quick" else 300, "length": 14 if tier == "quick" else 30,
+                "cs": seed * 10 + i} for i, t in enumerate(["sdo", "pdo"] if tier == "quick" else ["sdo", "pdo", "sdo", "pdo"])]
     shards += [{"kind": "modes", "masks": 64 if tier == "quick" else 1024, "transport": t, "cs": seed} for t in ("sdo", "pdo")]
     return shards
 
@@ -252,6 +254,65 @@ def run_transitions(ctx, desc):
                 rig.close()
 
 
+def run_histories(ctx, desc):
+    """One node object and one drive over many assignments: what an earlier assignment left behind (last controlword,
+    RPDO buffer, cached statusword) must not keep a later one from working.  Between assignments the drive may fault on
+    its own (transitions 13/14) or lose power and restart."""
+    rng = random.Random(repr(("c19h", desc["cs"])))
+    transport = desc["transport"]
+    for h in range(desc["count"]):
+        drive = D.Drive402(state=rng.choice([D.SOD, D.NRTSO, D.FAULT, D.OE]), auto_delay=rng.choice([0, 0, 1, 2]),
+                           extra=rng.getrandbits(16) & D.EXTRA_BITS)
+        rig = DriveRig(transport, drive)
+        if transport.startswith("pdo"):
+            rig.send_tpdo()
+        ops = []
+        for step in range(desc["length"]):
+            r = rng.random()
+            if r < 0.25:
+                ops.append("fault")
+                drive.fault()
+                for _ in range(4):
+                    drive.tick()                      # the fault reaction ends on its own
+                if transport.startswith("pdo"):
+                    rig.send_tpdo()
+                continue
+            if r < 0.32:
+                ops.append("power-cycle")
+                drive.power_cycle()
+                for _ in range(4):
+                    drive.tick()
+                if transport.startswith("pdo"):
+                    rig.send_tpdo()
+                continue
+            target = rng.choice(COMMANDABLE)
+            start = drive.state
+            ops.append(target)
+            n_cw, n_tr = len(drive.controlwords), len(drive.transitions)
+            case = {"workload": "histories", "transport": transport, "history": f"{desc['cs']}-{h}", "ops": ops[-8:], "start": start, "target": target}
+            ctx.case(("history-step", transport, start, target, ops[-2] if len(ops) > 1 else "first"), nontrivial=True)
+            ctx.count("transition_cases")
+            exc = None
+            try:
+                rig.node.state = target
+            except Exception as e:  # noqa: BLE001
+                exc = e
+            cws = drive.controlwords[n_cw:]
+            info = f"controlwords {[hex(c) for c in cws]}, drive went {[t[:3] for t in drive.transitions[n_tr:]]}, history {ops[-8:]}"
+            if exc is not None:
+                ctx.violation(f"commandable-target-failed:{type(exc).__name__}:after-earlier-assignments",
+                              f"state = {target!r} from {start!r} raised {exc!r}; {info}", case)
+                break
+            if drive.state != target:
+                ctx.violation("target-not-reached", f"state = {target!r} from {start!r} returned but the drive is in {drive.state!r}; {info}", case)
+                break
+            if any(t[1] == D.OE for t in drive.transitions[n_tr:]) and target not in (D.OE, D.QSA):
+                ctx.violation("operation-enabled-on-the-way", f"OPERATION ENABLED on the way from {start!r} to {target!r}; {info}", case)
+        if len(ctx.samples) < 6 and h == 0:
+            ctx.sample({"workload": "histories", "transport": transport, "ops": ops})
+        rig.close()
+
+
 def run_slow_drive(ctx):
     """Every single transition takes 0.3 s (well inside the single-step allowance of 4 s); the whole path takes longer
     than TIMEOUT_SWITCH_STATE_FINAL (0.5 s), which only limits a step that does *not* confirm."""
@@ -328,6 +389,8 @@ def run(ctx, desc):
         run_decode(ctx, desc)
     elif desc["kind"] == "transitions":
         run_transitions(ctx, desc)
+    elif desc["kind"] == "histories":
+        run_histories(ctx, desc)
     else:
         run_modes(ctx, desc)
 
